@@ -36,7 +36,7 @@ func fuzzWorld() (*world, []sdk.Context) {
 	fuzzOnce.Do(func() {
 		s0, _ := w.c.Ctx().CacheContext()
 		s1, _ := w.c.Ctx().CacheContext()
-		for i, cs := range []proto.Message{fixedBSC(0), fixedETH(), fixedTM(), fixedTSS()} {
+		for i, cs := range []proto.Message{fixedBSC(200), fixedETH(), fixedTM(), fixedTSS()} {
 			kind := []string{"bsc", "eth", "tendermint", "tss"}[i]
 			content, ok := acceptedContent(w, createProposal(chainNames[i], cs, fixedCons(kind)))
 			if !ok {
